@@ -5,6 +5,7 @@ import (
 	"go/types"
 	"os"
 	"runtime"
+	"sort"
 	"strings"
 
 	"github.com/csgura/fp"
@@ -32,6 +33,7 @@ type TypeClassSummonContext struct {
 	tcCache               *metafp.TypeClassInstanceCache
 	summoned              fp.Map[string, TypeClassInstanceGenerated]
 	loopCheck             fp.Set[string]
+	cycleHit              map[string]bool
 	recursiveGen          fp.Seq[metafp.TypeClassDerive]
 	implicitTypeInference bool
 }
@@ -2044,6 +2046,25 @@ func (r *TypeClassSummonContext) _summonVar(tc metafp.TypeClassDerive) SummonExp
 
 	if tc.DeriveFor.Info.TypeParam.Size() > 0 {
 
+		if r.cycleHit[tc.GeneratedInstanceName()] {
+			// a call of this function from inside its own body (recursive type) was written before the
+			// parameter list was known: it passes the instances in type parameter declaration order.
+			// the parameter list has to agree with it.
+			declared := func(p ParamInstance) int {
+				for i, tp := range tc.DeriveFor.Info.TypeParam {
+					if tp.Name == p.ParamName {
+						return i
+					}
+				}
+				return len(tc.DeriveFor.Info.TypeParam)
+			}
+			sorted := append(fp.Seq[ParamInstance]{}, mapExpr.paramInstance...)
+			sort.SliceStable(sorted, func(i, j int) bool {
+				return declared(sorted[i]) < declared(sorted[j])
+			})
+			mapExpr.paramInstance = sorted
+		}
+
 		tcname := tc.TypeClass.PackagedName(r.w, workingPackage)
 		// fargs := seq.Map(v.DeriveFor.Info.TypeParam, func(p metafp.TypeParam) string {
 		// 	return fmt.Sprintf("%s%s %s[%s] ", privateName(v.TypeClass.Name), p.Name, tcname, p.Name)
@@ -2079,6 +2100,10 @@ func (r *TypeClassSummonContext) summonVar(tc metafp.TypeClassDerive) fp.Option[
 
 	if r.loopCheck.Contains(tc.GeneratedInstanceName()) {
 		// fmt.Printf("cycle detected\n")
+		if r.cycleHit == nil {
+			r.cycleHit = map[string]bool{}
+		}
+		r.cycleHit[tc.GeneratedInstanceName()] = true
 		return option.None[SummonExpr]()
 	}
 
